@@ -59,7 +59,19 @@ def rule_overhead(fx, rep):
             if isinstance(last, dict) and last.get("n") == "move_overhead" and "EngineOptions" in base_ty:
                 sites.append(("field", st.get("line")))
             elif pr == ["*"] and base_ty.replace("&mut ", "").replace("&", "").strip().endswith("options::EngineOptions"):
-                sites.append(("whole", st.get("line")))
+                # a functional update that copies the old overhead back (`EngineOptions { hash_size, ..*options }`) keeps it
+                keeps = False
+                rv, abb = st["rv"], bb
+                if rv["k"] == "use" and "pl" in rv["op"] and not rv["op"]["pl"].get("p"):
+                    ds = b.defs().get(rv["op"]["pl"]["l"], [])
+                    if len(ds) == 1 and ds[0][0] == "stmt":
+                        rv, abb = ds[0][3]["rv"], ds[0][1]
+                if rv["k"] == "agg" and "move_overhead" in (rv.get("fields") or []):
+                    e = b.expr(rv["ops"][rv["fields"].index("move_overhead")], expand_named=True, at=abb)
+                    keeps = any(isinstance(x, tuple) and x and x[0] == "field" and x[2] == "move_overhead" and
+                                any(isinstance(y, tuple) and len(y) >= 2 and y[0] == "arg" and y[1] == st["lhs"]["l"] for y in walk(x[1])) for x in walk(e))
+                if not keeps:
+                    sites.append(("whole", st.get("line")))
         for bb, t in b.calls():
             d = t.get("dest") or {}
             if d.get("p") == ["*"] and b.local_ty(d["l"]).replace("&mut ", "").strip().endswith("options::EngineOptions"):
@@ -951,6 +963,8 @@ S = "src/engine/search/mod.rs"
 U = "src/engine/uci/mod.rs"
 P = "src/engine/uci/parser.rs"
 MUTANTS = [
+    {"name": "the Hash setter as a functional update that copies the other options back", "benign": True,
+     "edits": [("src/engine/uci/options.rs", "        options.hash_size = hash_size;\n        Ok(hash_size)", "        *options = EngineOptions {\n            hash_size,\n            ..options.clone()\n        };\n        Ok(hash_size)")]},
     {"name": "the Hash setter rebuilds the options from their defaults (seed C14-8a)", "expect": "C14-OVERHEAD/HashOption/whole",
      "edits": [("src/engine/uci/options.rs", "        options.hash_size = hash_size;\n        Ok(hash_size)", "        *options = EngineOptions {\n            hash_size,\n            ..EngineOptions::default()\n        };\n        Ok(hash_size)")]},
     {"name": "time-based poll switched off during the first iteration (seed C14-7b)", "expect": "C14-USE/TimeStrategy::should_stop/unclocked",
